@@ -1,6 +1,8 @@
 (* C16 -- executable model of the key-usage policy of PGPy as it is in /repo NOW:
    pgpy/decorators.py KeyAction (__call__, usage, check_attributes), pgpy/pgp.py PGPKey._get_key_flags (with the F7 repair:
-   a subkey's flags come from the NEWEST binding signature), PGPKey.is_public / is_protected / is_unlocked, the decorator
+   a subkey's flags come from the NEWEST binding signature), PGPUID.selfsig (with repair 812bc0f: the newest self-CERTIFICATION, types
+   0x10-0x13; a certification revocation or attestation by the key is skipped), PGPSignature.key_flags (with repair df70557: the KeyFlags
+   subpacket of the HASHED area, the empty set when there is none - an unhashed one grants nothing), PGPKey.is_public / is_protected / is_unlocked, the decorator
    arguments of sign / certify / revoke / revoker / bind / encrypt / decrypt, and the routing at the top of PGPKey.decrypt.
    No proofs in this file (Proofs/Policy_lemmas.v), statements in Props/C16.v.
 
@@ -14,10 +16,13 @@ Definition CERTIFY : Z := 1.
 Definition SIGN : Z := 2.
 Definition ENCRYPT : Z := 12.        (* EncryptCommunications | EncryptStorage *)
 
-(* a signature as far as the policy looks at it.  s_qual:
+(* a signature as far as the policy looks at it.
+   s_flags: the flags of its hashed KeyFlags subpacket (0 when the hashed area has none);
+   s_qual:
    on a user id   -- issued by the key itself (PGPUID.selfsig: signer_fingerprint / signer equals the parent's),
-   on a subkey    -- a non-expired Subkey_Binding issued by the parent (PGPKey.self_signatures). *)
-Record sigr := { s_created : Z; s_flags : Z; s_qual : bool }.
+   on a subkey    -- a non-expired Subkey_Binding issued by the parent (PGPKey.self_signatures);
+   s_cert: its type is a certification (Generic / Persona / Casual / Positive_Cert) -- looked at on user ids only. *)
+Record sigr := { s_created : Z; s_flags : Z; s_qual : bool; s_cert : bool }.
 (* user id: the strings get_uid compares against (name, comment, e-mail that are not None), its signatures in stored order *)
 Record uidr := { u_ids : list Z; u_sigs : list sigr }.
 
@@ -26,25 +31,33 @@ Record uidr := { u_ids : list Z; u_sigs : list sigr }.
 Definition newest (l : list sigr) : option sigr := find s_qual (rev l).
 (* the pre-480b116 code took next(self.self_signatures): the FIRST one (kept for the refutation only) *)
 Definition oldest (l : list sigr) : option sigr := find s_qual l.
+(* PGPUID.selfsig: `for sig in reversed(self._signatures)`, skipping what is not a certification, the first one issued by the key.
+   Before repair 812bc0f there was no type test: that rule is `newest` (kept for the refutation only) *)
+Definition newest_cert (l : list sigr) : option sigr := find (fun s => s_cert s && s_qual s) (rev l).
 
 Inductive crash :=
   | CrashUser          (* user= names no user id: get_uid gives None, None.selfsig -> AttributeError *)
   | CrashNoBinding.    (* subkey without usable binding signature: StopIteration inside the generator -> RuntimeError *)
 Inductive fres := FOk (f : Z) | FCrash (c : crash).
 
-Definition selfsig_flags (u : uidr) : Z := match newest (u_sigs u) with Some s => s_flags s | None => 0 end.
+(* `user.selfsig.key_flags if user.selfsig else set()`; upick = the selfsig rule *)
+Definition selfsig_flags_with (upick : list sigr -> option sigr) (u : uidr) : Z :=
+  match upick (u_sigs u) with Some s => s_flags s | None => 0 end.
+Definition selfsig_flags := selfsig_flags_with newest_cert.
+Definition selfsig_flags_old := selfsig_flags_with newest.
 Definition get_uid (uids : list uidr) (s : Z) : option uidr := find (fun u => existsb (Z.eqb s) (u_ids u)) uids.
 
 (* _get_key_flags on a primary key *)
-Definition flags_primary (uids : list uidr) (user : option Z) : fres :=
+Definition flags_primary_with (upick : list sigr -> option sigr) (uids : list uidr) (user : option Z) : fres :=
   match user with
   | Some s => match get_uid uids s with
               | None => FCrash CrashUser
-              | Some u => FOk (Z.lor CERTIFY (selfsig_flags u)) end
+              | Some u => FOk (Z.lor CERTIFY (selfsig_flags_with upick u)) end
   | None => match uids with
             | [] => FOk CERTIFY
-            | u :: _ => FOk (Z.lor CERTIFY (selfsig_flags u)) end
+            | u :: _ => FOk (Z.lor CERTIFY (selfsig_flags_with upick u)) end
   end.
+Definition flags_primary := flags_primary_with newest_cert.
 (* _get_key_flags on a subkey (the user argument is ignored there) *)
 Definition flags_sub_with (pick : list sigr -> option sigr) (sigs : list sigr) : fres :=
   match pick sigs with Some s => FOk (s_flags s) | None => FCrash CrashNoBinding end.
@@ -65,9 +78,10 @@ Definition is_protected (k : pkey) : bool := if is_public k then false else k_pr
 Definition is_unlocked (k : pkey) : bool := if is_public k then true else if negb (is_protected k) then true else k_unl k.
 
 (* flags of the receiver (component 0) and of its subkeys (components 1..n), in the order usage() visits them *)
-Definition comp_flags_with (pick : list sigr -> option sigr) (k : pkey) (user : option Z) : list fres :=
-  (if k_primary k then flags_primary (k_uids k) user else flags_sub_with pick (k_bind k)) :: map (flags_sub_with pick) (k_subs k).
-Definition comp_flags := comp_flags_with newest.
+(* upick = the selfsig rule on user ids, pick = the binding-signature rule on subkeys *)
+Definition comp_flags_with (upick pick : list sigr -> option sigr) (k : pkey) (user : option Z) : list fres :=
+  (if k_primary k then flags_primary_with upick (k_uids k) user else flags_sub_with pick (k_bind k)) :: map (flags_sub_with pick) (k_subs k).
+Definition comp_flags := comp_flags_with newest_cert newest.
 
 (* the for ... else of KeyAction.usage.  idx = index of the head of l, last = index of the component visited before it
    (what the loop variable _key still holds when the loop runs out) *)
@@ -94,14 +108,14 @@ Definition check_attributes (k : pkey) (o : oper) : option attr :=
   option_map fst (find (fun c => negb (Bool.eqb (attr_val k (fst c)) (snd c))) (op_conds o)).
 
 Inductive used := Chosen (idx : nat) (warned : bool) | Refused | Crashed (c : crash).
-Definition usage_with (pick : list sigr -> option sigr) (k : pkey) (o : oper) (user : option Z) : used :=
+Definition usage_with (upick pick : list sigr -> option sigr) (k : pkey) (o : oper) (user : option Z) : used :=
   if op_flags o =? 0 then Chosen 0 false
-  else match scan (op_flags o) (comp_flags_with pick k user) 0 0 with
+  else match scan (op_flags o) (comp_flags_with upick pick k user) 0 0 with
        | Found i => Chosen i false
        | Exhausted last => if k_enforce k then Refused else Chosen last true
        | ScanCrash c => Crashed c
        end.
-Definition usage := usage_with newest.
+Definition usage := usage_with newest_cert newest.
 
 Inductive outcome :=
   | NoKey | Incomplete | NoUsage | BadAttr (a : attr)     (* the four PGPError refusals *)
@@ -109,16 +123,19 @@ Inductive outcome :=
   | Run (idx : nat) (warned : bool).                     (* the undecorated method runs on component idx *)
 
 (* KeyAction.__call__ *)
-Definition perform_with (pick : list sigr -> option sigr) (k : pkey) (o : oper) (user : option Z) : outcome :=
+Definition perform_with (upick pick : list sigr -> option sigr) (k : pkey) (o : oper) (user : option Z) : outcome :=
   if negb (k_present k) then NoKey
   else if (length (k_uids k) =? 0)%nat && k_primary k && negb (is_certify o) then Incomplete
-  else match usage_with pick k o user with
+  else match usage_with upick pick k o user with
        | Crashed c => Crash c
        | Refused => NoUsage
        | Chosen i w => match check_attributes k o with Some a => BadAttr a | None => Run i w end
        end.
-Definition perform := perform_with newest.
-Definition perform_prefix := perform_with oldest.
+Definition perform := perform_with newest_cert newest.
+(* before repair 480b116 (F7): the oldest binding signature of a subkey *)
+Definition perform_prefix := perform_with newest_cert oldest.
+(* before repair 812bc0f: the newest signature of any type by the key as the self-signature of a user id *)
+Definition perform_old_selfsig := perform_with newest newest.
 
 (* the top of PGPKey.decrypt: own key id among the recipients -> decrypt here; else the subkeys that are addressed
    (the code takes list(set & set)[0], i.e. one of them); else refuse *)
